@@ -19,6 +19,9 @@
 (*           install itself (ch[j].probes, oprobes) -> finding "entry"     *)
 (*   end   : end    = ApplySeq(entry, child steps) on MK (anti-vacuity:    *)
 (*           the mutation did happen in the child) -> "end"    (tool)      *)
+(*   a redirection-only command (>>file$((a=1))) inside pre / a subshell   *)
+(*   body / post is a subshell of its own: a change of its footprint in    *)
+(*   the environment executing it             -> finding "leak"            *)
 (*   drift : init = InitMap, before = ApplySeq(InitMap, pre) on MK         *)
 (*                                                 -> "drift"  (tool)      *)
 (*   abnormal outcome / missing snapshot         -> "abnormal" (tool)      *)
@@ -78,7 +81,15 @@ Verdict(r) ==
          THEN {<<"abnormal", "outcome", "completed", r.outcome>>} ELSE {}
       drift0 == {<<"drift", k, InitMap[k], Vinit(k)>> : k \in {x \in MK : Vinit(x) # InitMap[x]}}
       Mb == EnterCtx(ApplySeq(InitMap, sc.pre, "pre"), sc.ctx)
-      drift1 == {<<"drift", k, Mb[k], Vbefore(k)>> : k \in BadKeys(Mb, InitMap, Vbefore, r.d_before, RefInit)}
+      (* a redirection-only command is a subshell of its own: a key of its     *)
+      (* footprint that changes in the environment executing it is a leak     *)
+      Nested(seq) == UNION {NestedFootprint(seq[i]) : i \in 1..Len(seq)}
+      Class(seq, k, dflt) == IF k \in Nested(seq) THEN "leak" ELSE dflt
+      drift1 == {<<Class(sc.pre, k, "drift"), k, Mb[k], Vbefore(k)>> :
+                    k \in BadKeys(Mb, InitMap, Vbefore, r.d_before, RefInit)}
+      files == IF {r.files[i] : i \in 1..Len(r.files)}
+                  = NestedFiles(sc.pre) \cup NestedFiles(sc.post) \cup UNION {NestedFiles(sc.ch[j]) : j \in 1..nch}
+               THEN {} ELSE {<<"end", "files", "as the redirection-only commands prescribe", "different">>}
       EntryBad(j) ==
          LET Me == ForkImage(Ob, roles[j])
              V(k) == Ventry(j, k)
@@ -91,7 +102,7 @@ Verdict(r) ==
              Mend == ApplySeq(Oe, sc.ch[j], "c" \o ToString(j))
              V(k) == Vend(j, k)
              tainted == {t[2] : t \in EntryBad(j)}
-         IN  {<<"end", k, Mend[k], V(k)>> :
+         IN  {<<Class(sc.ch[j], k, "end"), k, Mend[k], V(k)>> :
                  k \in BadKeys(Mend, Oe, V, r.ch[j].d_end, RefBefore \cup {Oe[k] : k \in FdKeys}) \ tainted}
       (* behaviour: every trap action (`probe <tag>`) run by the subshell's   *)
       (* process is one the subshell installed itself; processes that are    *)
@@ -113,7 +124,7 @@ Verdict(r) ==
          ELSE IF kind_ = "Pipe" /\ r.out # "data\n" THEN {<<"drift", "out", "data", r.out>>}
          ELSE {}
   IN IF abnormal # {} THEN abnormal
-     ELSE drift0 \cup drift1 \cup leak \cup data
+     ELSE drift0 \cup drift1 \cup leak \cup data \cup files
           \cup UNION {EntryBad(j) : j \in 1..nch} \cup UNION {EndBad(j) : j \in 1..nch}
           \cup UNION {ForeignRuns(j) : j \in 1..nch} \cup otherRuns
 
